@@ -143,12 +143,17 @@ def big_mixtures(ctx, libs_, batch):
                 if ctx.time_left() < 120:
                     return
                 ctx.count('big_mixtures')
-                for parts in ([small] + big, big + [small], big[:len(big) // 2] + [small] + big[len(big) // 2:]):
-                    if not additive(lib, parts, res):
-                        parts = shrink_big(lib, parts, small, res)
-                        check_pair(ctx, name, lib, parts, [res(x) for x in parts], None)
-                        return
+                orders = [[small] + big, big + [small], big[:len(big) // 2] + [small] + big[len(big) // 2:]]
+                for parts in (orders if ctx.thorough() else rng.sample(orders, 2)):
+                    before = len(ctx.violations)
                     check_pair(ctx, name, lib, parts, [res(x) for x in parts], batch if k == 0 else None)
+                    if len(ctx.violations) > before:
+                        # report the failing mixture in its smallest form instead
+                        smaller = shrink_big(lib, parts, small, res)
+                        if smaller != parts:
+                            del ctx.violations[before:]
+                            check_pair(ctx, name, lib, smaller, [res(x) for x in smaller], None)
+                        return
 
 
 def additive(lib, parts, res):
@@ -188,6 +193,9 @@ def shrink_big(lib, parts, small, res):
                     hi = mid
             parts[i] = 'C' * hi
     return parts
+
+
+_SEP = {}
 
 
 def check_pair(ctx, name, lib, parts, results, batch, full=None, pipe=None):
@@ -230,8 +238,12 @@ def check_pair(ctx, name, lib, parts, results, batch, full=None, pipe=None):
     try:
         ps = []
         for part in parts:
-            m = S.prepare(part)
-            ps.append(S.declared(S.scheme_input(lib.scheme, m), parts=True)['ok'])
+            key = (id(lib), part)
+            if key not in _SEP or _SEP[key][0] is not lib:
+                if len(_SEP) > 4000:
+                    _SEP.clear()
+                _SEP[key] = (lib, S.declared(S.scheme_input(lib.scheme, S.prepare(part)), parts=True)['ok'])
+            ps.append(_SEP[key][1])
         dkeys = set().union(*[set(d) for _, d in ps])
         sep = all(g.get(t, 0) == 0 for g, _ in ps for t in dkeys)
     except Exception:
